@@ -401,7 +401,7 @@ func visitInstr(fr *frame, instr ssa.Instruction) continuation {
 		key := fr.get(instr.Key)
 		v := fr.get(instr.Value)
 		if isSym(key) {
-			key = concKey(key)
+			key = concKeyT(key, instr.Map.Type().Underlying().(*types.Map).Key())
 		}
 		switch m := m.(type) {
 		case map[value]value:
